@@ -19,6 +19,7 @@ before the operation, clause by clause, by z3.
 """
 import contextlib
 import io
+import os
 import itertools
 import z3
 from fractions import Fraction
@@ -118,6 +119,10 @@ def connection_checks(snap):
 
 def _finish_path(c, op, sh, checks, failures, distinct, samples, replay_of, perkey, klass_default='any'):
     """checks: list of (clause, label, value[, klass]).  Proves each, records failures."""
+    rw, _ = c.reachable()              # reachability witness: the whole path condition is satisfiable
+    if rw != 'sat':
+        failures.append(dict(key='%s/VACUOUS' % op, what='path condition is %s' % rw, replay=dict(op='vacuous')))
+        return
     if len(samples) < 1:
         nontriv = [(cl, lab, str(z3.simplify(v))[:160]) for cl, lab, v, *_ in checks if not isinstance(v, bool)]
         if nontriv: samples.append(dict(op=op, shape=G.shape_id(sh) if isinstance(sh, dict) else sh, example_obligation=nontriv[0]))
@@ -255,11 +260,9 @@ def task_minc(sh, fractions, spacing, nfp, blocks):
         processed = []
         for i in sel:
             f = z3.And(p.vol[i].e > 0, p.vol[i].e < z3.RealVal(Fraction(ATMOS_VOLUME)))
-            r1, _ = c.solve(z3.Not(f))
-            if r1 == 'unsat': processed.append(i); continue
-            r2, _ = c.solve(f)
-            if r2 != 'unsat':
-                c.prove(False, 'path does not decide whether block %d is MINC-processed' % i)
+            # no fork when the path condition already decides it (it does on the unchanged tree);
+            # otherwise the path is split so that each half has a definite expectation
+            if c.branch(f): processed.append(i)
         newb = g.blocklist[nb:]; newc = g.connectionlist[ncon:]
         checks = [('chain', 'exactly (levels-1) new blocks and connections per processed block',
                    len(newb) == len(processed) * (L - 1) and len(newc) == len(processed) * (L - 1)),
@@ -449,6 +452,11 @@ def catalogue(tier):
 def run(tier, seed, rep):
     _load()
     tasks = catalogue(tier)
+    flt = os.environ.get('VX_TASK_FILTER')
+    if flt:
+        # development aid (mutation testing of one operation): a filtered run can never exit 0
+        tasks = [t for t in tasks if any(f in (t[1].get('op') or t[0].__name__) for f in flt.split(','))]
+        rep.harness_error('VX_TASK_FILTER=%s active: partial run of %d tasks, not a verdict' % (flt, len(tasks)))
     if seed:
         import random
         random.Random(seed).shuffle(tasks)
